@@ -46,7 +46,18 @@ def check_port(ctx, backend, route, scheme, port, host, ui):
         p = None if port in (None, "") else (int(port) if valid else None)
         s = "%s//%s%s%s/p" % (scheme + ":" if scheme else "", ui, htext, "" if port is None else ":" + port)
         if not valid:
-            ctx.case(False, label="skipped:not-applicable")
+            # verbatim construction does not look at the port; the rejection happens when the port is asked for
+            ctx.case(True, label=route + "/invalid")
+            try:
+                v = URL(s, encoded=True)
+            except ValueError:
+                return
+            for acc in ("explicit_port", "port", "host_port_subcomponent"):
+                try:
+                    val = getattr(v, acc)
+                    ctx.check(False, "invalid port text of a verbatim URL is not rejected by %s" % acc, observed={"url": s, "value": val}, expected="ValueError", entry=route)
+                except ValueError:
+                    pass
             return
         u = URL(s, encoded=True)
         ctx.case(p in NEAR or host >= 3 or bool(ui), label=route)
@@ -93,6 +104,12 @@ def check_port(ctx, backend, route, scheme, port, host, ui):
             if route == "with_scheme":
                 b.port, b.explicit_port, b.host_port_subcomponent, b.is_default_port(), str(b), b.authority, b.raw_host, hash(b)
             return b.with_scheme(scheme)
+    elif route == "with_port-nodefault":
+        valid = port is None or (type(port) is int and 0 <= port <= 65535)
+        p = port if valid else None
+        base = URL("%s//%s%s/p" % (scheme + ":" if scheme else "", ui, htext))
+        base.port, base.authority, base.explicit_port, base.is_default_port(), base.host_port_subcomponent
+        make = lambda: base.with_port(port)  # noqa: E731
     elif route == "with_port":
         valid = port is None or (type(port) is int and 0 <= port <= 65535)
         p = port if valid else None
@@ -107,7 +124,7 @@ def check_port(ctx, backend, route, scheme, port, host, ui):
     except (ValueError, TypeError) as e:
         if valid:
             ctx.check(False, "valid port rejected", observed=e, expected="accepted", entry=route)
-        elif route == "with_port":
+        elif route in ("with_port", "with_port-nodefault"):
             pass  # "rejects": the statement does not fix which of ValueError/TypeError; both are accepted
         elif route in ("ctor", "build-authority", "with_scheme", "with_scheme-fresh"):
             ctx.check(isinstance(e, ValueError), "invalid port text must be rejected with ValueError", observed=e, expected="ValueError", entry=route)
@@ -178,6 +195,7 @@ def matrix(ctx, backend):
         for port in obj_ports:
             ctx.run("port", backend=backend, route="build", scheme=scheme, port=port, host=host, ui=ui)
             ctx.run("port", backend=backend, route="with_port", scheme=scheme, port=port, host=host, ui=ui)
+            ctx.run("port", backend=backend, route="with_port-nodefault", scheme=scheme, port=port, host=host, ui=ui)
     for s in ["/p", "p", "", "?q", "#f", "mailto:x", "http:/p", "x-other:p", "ftp:", "//"]:
         ctx.run("relative", backend=backend, s=s)
 
